@@ -15,6 +15,9 @@ pub static CLOCK_US: AtomicI64 = AtomicI64::new(0);
 pub const EPOCH_S: i64 = 1_767_225_600;
 
 /// Global event sequence number as of the last scheduling point / stamp (readable without the scheduler lock).
+/// Label of the run in progress (job + seed), for harness diagnostics.
+pub static CURRENT_RUN: Mutex<String> = Mutex::new(String::new());
+
 pub static SEQ_NOW: std::sync::atomic::AtomicU64 = std::sync::atomic::AtomicU64::new(0);
 
 pub fn seq_now() -> u64 {
@@ -65,7 +68,7 @@ pub enum Strategy {
 }
 
 #[derive(Clone, Copy, PartialEq, Debug)]
-enum ThState {
+pub enum ThState {
     Runnable,
     Sleeping(i64),
     Done,
@@ -495,7 +498,12 @@ where
         }
         if hang {
             // cannot recover a wedged OS thread; report and abort the process from the caller
-            eprintln!("HARNESS: scheduler watchdog fired (a simulated thread is blocked outside the scheduler)");
+            let run = CURRENT_RUN.lock().map(|s| s.clone()).unwrap_or_default();
+            let diag = match SCHED.try_lock() {
+                Ok(g) => g.as_ref().map(|st| format!("cur={} states={:?} steps={} os_blocked={} last_progress={:?} ago trace_tail={:?}", st.cur as i64, st.th, st.steps, st.os_blocked, st.last_progress.elapsed(), st.trace.iter().rev().take(12).collect::<Vec<_>>())).unwrap_or_default(),
+                Err(_) => "scheduler state locked".to_string(),
+            };
+            eprintln!("HARNESS: scheduler watchdog fired (a simulated thread is blocked outside the scheduler) run=[{run}] {diag}");
             std::process::exit(2);
         }
         for h in handles {
